@@ -75,9 +75,10 @@ PROPS = {
             "law (cited), rounding, the ziggurat primitives (C06), the single-draw transforms (C13). Beta (Cheng BB/BC incl. Beta::new) is covered."),
     "C02": ("rules_c02", "other",
             "Decided (agreement with the reference algorithm, not the pmf): Zeta and Zipf (single-step decision lists); Poisson/Knuth, Binomial BINV and BTPE "
-            "with Binomial::new, StandardGeometric, Geometric, Hypergeometric HIN (transition systems cut at the loop headers): every comparison is a test of "
+            "with Binomial::new, StandardGeometric, Geometric, Hypergeometric HIN, Poisson PD (Ahrens-Dieter: Poisson::new, set-up constants, procedure F with its "
+            "tables, the sampler) (transition systems cut at the loop headers): every comparison is a test of "
             "the reference (integers: including strictness), equal decision functions, identical returned terms, carried-variable updates and derived constants. "
-            "Not examined: Poisson Ahrens-Dieter, Hypergeometric H2PE and Hypergeometric::new. Not decided anywhere: the probability mass function itself, rounding."),
+            "Hypergeometric::new (reflections, HIN/H2PE switch, H2PE set-up constants) likewise. Not examined: the H2PE sampling loop. Not decided anywhere: the probability mass function itself, rounding."),
     "C10": ("rules_c10", "other",
             "Decided (structural clauses of the descent): the target is random_range(ZERO..root subtotal); in one iteration of the descent, on every "
             "feasible path, each comparison is target' < subtotal(child) with child in {2i+1, 2i+2} and target' = target minus exactly the "
